@@ -21,9 +21,9 @@ def run(ctx):
     if ctx.quick:       # the quick corpus A is a reduced C19 domain (C19 itself runs the larger one)
         params.update(INT_FULL=1, INT_MAX=2, INT_LONG=9, OID_FULL=1, OID_MAX=2, OID_LONG=3, BITS_FULL=1, BITS_MAX=2,
                       LEN_FULL=2, LEN_MAX=3, LEN_SMALL=5, TAG_FULL=2, TAG_MAX=3)
-    else:
-        params.update(INT_FULL=2, INT_MAX=4, OID_FULL=1, OID_MAX=4, BITS_FULL=1, BITS_MAX=4, LEN_FULL=3, LEN_MAX=4, LEN_SMALL=7,
-                      TAG_FULL=2, TAG_MAX=5, TIMEMENU='"full"')
+    else:       # ~110 k states; corpus A x asn1 targets stays below ~10^6 observations (TLC reads them as one NDJSON file)
+        params.update(INT_FULL=2, INT_MAX=3, OID_FULL=1, OID_MAX=3, BITS_FULL=1, BITS_MAX=3, LEN_FULL=2, LEN_MAX=4,
+                      LEN_SMALL=7, TAG_FULL=2, TAG_MAX=4)
     path, ncases, r = C19.gen(ctx, C19.KINDS, params, "DERGen (C19 corpus)")
     files = []
     out = ctx.path("perm_der.ndjson")
@@ -36,7 +36,7 @@ def run(ctx):
     ctx.run(binary, ["sweep-structs", out, "0"], timeout=3000)
     files.append(out)
     out = ctx.path("perm_cert.ndjson")
-    ctx.run(binary, ["certs", out, str(1000 if ctx.quick else 40000)], timeout=3000)
+    ctx.run(binary, ["certs", out, str(1000 if ctx.quick else 20000)], timeout=3000)
     files.append(out)
     # systematic: every node of the seed certificates x every relaxation-type operator
     out = ctx.path("perm_cert_sweep.ndjson")
@@ -88,8 +88,10 @@ def run(ctx):
 def judge(ctx, recs, label=None):
     write_ndjson(ctx.specfile("perm_obs.ndjson"), recs)
     r = ctx.tlc("Trace_Perm", "Perm_judge.cfg", workers=1, timeout=3000, label=label or "Trace_Perm[%d obs]" % len(recs))
-    rej = sorted((int(m.group(1)), m.group(2), ",".join(sorted(re.findall(r'"([^"]+)"', m.group(3)))))
-                 for m in re.finditer(r'<<"REJECT", (\d+), "([^"]*)", \{([^}]*)\}>>', " ".join(r.out.split())))
+    try:
+        rej = derlib.rejects(r.out, 2)
+    except ValueError as e:
+        raise Machinery(str(e))
     counts = {m.group(1): (int(m.group(2)), int(m.group(3)), int(m.group(4)))
               for m in re.finditer(r'<<"COUNTS", "(\w+)", (\d+), (\d+), (\d+)>>', r.out)}
     if label is None and sum(v[0] for v in counts.values()) != len(recs):
@@ -125,6 +127,8 @@ def selftest(ctx, recs):
 
 
 def replay(ctx, path):
+    import os
+    path = os.path.abspath(path)
     binary = ctx.gobuild("c20")
     again = reproduce(ctx, binary, path)
     print("REPRODUCED" if again else "not reproduced")
